@@ -173,6 +173,8 @@ class StubSocket:
 
     def install(self, eng):
         sock = self
+        self.eng = eng
+        self.chunks = []
         obj = SObj(type('FakeSock', (), {}), {})
         eng.attr_stubs[('FakeSock', 'recv')] = lambda e, o: symx.SymCallable(lambda n: sock.recv(n))
         eng.attr_stubs[('FakeSock', 'sendall')] = lambda e, o: symx.SymCallable(lambda d: sock.sent.append(d))
@@ -182,9 +184,17 @@ class StubSocket:
         self.calls += 1
         if self.pos >= self.eof_at or self.pos >= len(self.chars):
             return b''
-        c = self.chars[self.pos]
-        self.pos += 1
-        return sstr.mk([c], b'')
+        # "however the bytes are split in transit": a caller that asks for more than one byte gets ANY number between 1 and
+        # min(n, what is left) - a fork per size (a caller that reads byte by byte sees no choice)
+        left = min(self.eof_at, len(self.chars)) - self.pos
+        cap = left if not isinstance(n, int) else max(1, min(n, left))
+        m = 1
+        while m < cap and not self.eng.decide(z3.Bool(f'chunk{len(self.chunks)}_is_{m}')):
+            m += 1
+        self.chunks.append(m)
+        cs = self.chars[self.pos:self.pos + m]
+        self.pos += m
+        return sstr.mk(cs, b'')
 
 
 def case_framing(lens, eof_at):
@@ -217,7 +227,7 @@ def case_framing(lens, eof_at):
         recv = SObj(MessageInterface, {'connection_socket': si})
 
         def cex(m):
-            return {'kind': 'framing', 'messages': [text_of(m, x) for x in msgs], 'eof_at': cut}
+            return {'kind': 'framing', 'messages': [text_of(m, x) for x in msgs], 'eof_at': cut, 'chunks': list(inp.chunks)}
         chk = []
         framed = [2 + L for L in lens]
         got = 0
